@@ -5,6 +5,7 @@ package server
 import (
 	"encoding/json"
 	"fmt"
+	"hash/fnv"
 	"math/rand"
 	"os"
 	"path/filepath"
@@ -245,6 +246,11 @@ func runOnce(t *testing.T, prop string, tier string, seed int64, rep *ReplayFile
 	}
 	res.Stats = s.stats
 	res.SchedSig = s.schedSig
+	if w.sigExtra != "" {
+		h := fnv.New64a()
+		h.Write([]byte(w.sigExtra))
+		res.SchedSig = h.Sum64()
+	}
 	res.NonTrivial = w.nontriv
 	res.LogHash = s.logHash()
 	res.VirtualMs = int64(s.endVirtual / time.Millisecond)
